@@ -1311,6 +1311,7 @@ func lemmaCreateThenMapQueue(data []byte, cap uint32) {
 //@   unreachable-returns 1   // the readMore error exit
 //@   ensures  size <= 0 ==> r1 == nil && l.len == old(l.len)
 //@   ensures  size > 0 ==> r1 == nil && l.len == old(l.len) - size
+//@   ensures  size > 0 ==> len(r0) == size
 //@   loop 0 assume frontOK(l) && l.pinnedList.backSlice != l.sliceList.frontSlice && (l.sliceList.frontSlice.writeIndex == l.sliceList.frontSlice.readIndex ==> l.sliceList.len > 1)
 //@   loop 0 invariant bufOK(l) && 0 <= written && written <= size && len(s) == size && l.len == old(l.len)
 //@   at call (*sliceList).front#3 assume frontOK(l) && l.pinnedList.backSlice != l.sliceList.frontSlice   // availability after the exhausted front slice was dropped (Len accounts the slices: not mechanised, see C06)
@@ -1408,6 +1409,7 @@ func lemmaCreateThenMapQueue(data []byte, cap uint32) {
 //@   ghost var released int = 0
 //@   at call? (*bufferManager).recycleBuffer#0 ghost released := released + 1
 //@   at call? putBackBufferSlice#0 ghost released := released + 1
+//@   at call? putBackBufferSlice#0 check[C08,C09] !a0.isFromShm      // only heap slices go straight back to the object pool: a shared-memory slice must be returned to its free list
 //@   ensures[C08] l.pinnedList.len == 0
 //@   exit[C08] released == old(l.pinnedList.len)
 //@   ensures  old(l.pinnedList.len) > 0 ==> !l.currentPinned
